@@ -52,24 +52,30 @@ def impl_run_stats(cv, vals):
 
 
 def oracle_stats(cv, vals):
+    """the property on get_cycle_stat for float, integer and boolean value vectors (any value vector, any function)"""
     from emd import cycles
     fails = []
-    c, v = np.array(cv, dtype=int), np.array(vals, dtype=float)
+    c = np.array(cv, dtype=int)
     K = max(cv) + 1
-    for name, f in FUNCS + [('mean', np.mean)]:
-        try:
-            got = cycles.get_cycle_stat(c, v, func=f)
-            proj = cycles.get_cycle_stat(c, v, out='samples', func=f)
-        except Exception as e:
-            return [('get_cycle_stat', 'raised %s: %s' % (type(e).__name__, e))]
-        exp = [f(np.array([vals[i] for i in range(len(cv)) if cv[i] == k], dtype=float)) for k in range(K)]
-        if len(got) != K or not np.allclose(got, exp, rtol=1e-12, atol=1e-12):
-            fails.append(('get_cycle_stat', 'func=%s: got %s, the function applied to each label\'s samples gives %s'
-                          % (name, list(got), exp)))
-        expp = [exp[lab] if lab >= 0 else np.nan for lab in cv]
-        proj = np.asarray(proj, dtype=float).reshape(-1)
-        if proj.shape != (len(cv),) or not np.allclose(proj, expp, rtol=1e-12, atol=1e-12, equal_nan=True):
-            fails.append(("get_cycle_stat(out='samples')", 'func=%s: projection %s, expected %s' % (name, proj.tolist(), expp)))
+    for dt in (float, np.int64, np.int32, bool):
+        v = np.array(vals).astype(dt)
+        for name, f in FUNCS + [('mean', np.mean)]:
+            try:
+                got = cycles.get_cycle_stat(c, v, func=f)
+                proj = cycles.get_cycle_stat(c, v, out='samples', func=f)
+            except Exception as e:
+                return [('get_cycle_stat', 'raised %s: %s' % (type(e).__name__, e))]
+            exp = [float(f(v[c == k])) for k in range(K)]
+            tag = '' if dt is float else ' (values of dtype %s)' % np.dtype(dt).name
+            if len(got) != K or not np.allclose(np.asarray(got, dtype=float), exp, rtol=1e-12, atol=1e-12):
+                fails.append(('get_cycle_stat', 'func=%s%s: got %s, the function applied to each label\'s samples gives %s'
+                              % (name, tag, list(got), exp)))
+            expp = [exp[lab] if lab >= 0 else np.nan for lab in cv]
+            proj = np.asarray(proj, dtype=float).reshape(-1)
+            if proj.shape != (len(cv),) or not np.allclose(proj, expp, rtol=1e-12, atol=1e-12, equal_nan=True):
+                fails.append(("get_cycle_stat(out='samples')", 'func=%s%s: projection %s, expected %s' % (name, tag, proj.tolist(), expp)))
+        if fails:
+            break
     return fails
 
 
